@@ -15,6 +15,7 @@
 #include <stdio.h>
 #include <stdlib.h>
 #include <string.h>
+#include <sys/mman.h>
 #include <sys/syscall.h>
 #include <sys/time.h>
 #include <time.h>
@@ -98,6 +99,7 @@ static uint64_t g_next_deadline = ~0ull;
 static uint64_t g_arrival = 0;
 static uint64_t g_progress_epoch = 1;
 static int g_quiesced = 0;
+static int g_auto_quiesced = 0;
 static uint64_t g_budget_end = 0;
 static int g_wake_pending = 0;
 static int g_ncondwait = 0;
@@ -148,6 +150,17 @@ static inline void hmix(uint64_t v)
     }
 }
 
+// flight recorder: the last TRACE_N schedule points
+#define TRACE_N 16384
+struct TraceEnt {
+    uint64_t step;
+    uint32_t tid;
+    uint32_t kind;
+    uintptr_t addr;
+    uintptr_t pc;
+};
+static TraceEnt g_trace[TRACE_N];
+
 // script / record
 static const sim_decision* g_script = nullptr;
 static size_t g_nscript = 0;
@@ -157,12 +170,21 @@ static size_t g_nrec = 0, g_caprec = 0;
 static void rec_add(uint32_t tid, uint32_t kind, uint64_t n, uint64_t arg)
 {
     if (!g_cfg.record) return;
-    if (g_nrec == g_caprec)
+    if (!g_rec)
     {
-        size_t ncap = g_caprec ? g_caprec * 2 : 4096;
-        g_rec = (sim_decision*) realloc(g_rec, ncap * sizeof(sim_decision));
-        g_caprec = ncap;
+        // far away from everything else, so that recording does not move any other mapping
+        g_caprec = 1u << 22;
+        void* p = mmap((void*) 0x100000000000ull, g_caprec * sizeof(sim_decision),
+            PROT_READ | PROT_WRITE, MAP_PRIVATE | MAP_ANONYMOUS | MAP_FIXED_NOREPLACE | MAP_NORESERVE,
+            -1, 0);
+        if (p == MAP_FAILED)
+        {
+            g_cfg.record = 0;
+            return;
+        }
+        g_rec = (sim_decision*) p;
     }
+    if (g_nrec == g_caprec) return;
     g_rec[g_nrec++] = sim_decision{tid, kind, n, arg};
 }
 
@@ -413,8 +435,13 @@ static int count_runnable()
 static SimThread* choose_other(SimThread* me, SimThread** dflt)
 {
     SimThread* cand[MAXT];
-    int n = collect(me, cand, true);
-    if (n == 0) n = collect(me, cand, false);
+    // fairness: under rr / quiescence every runnable thread takes its turn; the random strategies
+    // prefer threads that are not known to be spinning, but not always
+    bool fair = g_quiesced || g_cfg.strategy == SIM_RR || g_cfg.strategy == SIM_SCRIPT;
+    bool avoid = !fair && (rnd32() & 7) != 0;
+    if (g_cfg.strategy == SIM_SCRIPT) avoid = true;
+    int n = collect(me, cand, avoid);
+    if (n == 0 && avoid) n = collect(me, cand, false);
     if (n == 0)
     {
         *dflt = nullptr;
@@ -452,11 +479,17 @@ static inline int focus_lookup(uintptr_t pc)
     return -1;
 }
 
+SIM_EXPORT void sim_quiesce(uint64_t budget);
 static void check_caps()
 {
     if (g_budget_end && g_step > g_budget_end) sim_fail("budget", "quiescence step budget exhausted");
     if (!g_quiesced && g_cfg.max_steps && g_step > g_cfg.max_steps)
-        sim_fail("steps", "fault-phase step cap exhausted");
+    {
+        // the fault phase ran too long: stop injecting, schedule fairly, and give the run one
+        // quiescence budget to finish (bounded liveness is only ever judged under fairness)
+        g_auto_quiesced = 1;
+        sim_quiesce(g_cfg.max_steps);
+    }
 }
 
 // Block the calling thread (its state has been set to a non-runnable one) until it is made
@@ -516,6 +549,14 @@ static void point(SimThread* me, int kind, const void* addr, uintptr_t pc)
 {
     g_step++;
     me->npts++;
+    {
+        TraceEnt& te = g_trace[g_step & (TRACE_N - 1)];
+        te.step = g_step;
+        te.tid = (uint32_t) me->id;
+        te.kind = (uint32_t) kind;
+        te.addr = (uintptr_t) addr;
+        te.pc = pc;
+    }
     advance_time(g_cfg.time_quantum_ns);
     if ((g_step & 1023) == 0)
     {
@@ -541,17 +582,39 @@ static void point(SimThread* me, int kind, const void* addr, uintptr_t pc)
 
     if (g_cfg.strategy == SIM_SCRIPT)
     {
+        if (g_ncondwait > 0)
+        {
+            const sim_decision* sp = script_find(me->id, me->npts, SIM_D_SPURIOUS);
+            if (sp && sp->arg < (uint64_t) g_nthr && g_thr[sp->arg].st == T_COND)
+            {
+                SimThread* v = &g_thr[sp->arg];
+                v->wake_reason = 2;
+                make_runnable(v);
+                g_st.fault_counts[SIM_D_SPURIOUS]++;
+                hmix(0xF2000000ull | v->id);
+                rec_add(me->id, SIM_D_SPURIOUS, me->npts, v->id);
+            }
+        }
         const sim_decision* d = script_find(me->id, me->npts, SIM_D_SWITCH);
         if (d)
         {
             if (d->arg < (uint64_t) g_nthr && g_thr[d->arg].st == T_RUNNABLE && &g_thr[d->arg] != me)
             {
                 SimThread* next = &g_thr[d->arg];
+                const sim_decision* stl = script_find(me->id, me->npts, SIM_D_STALL);
+                if (stl && !g_quiesced)
+                {
+                    me->st = T_STALL;
+                    me->stall_until = g_step + stl->arg;
+                    g_st.fault_counts[SIM_D_STALL]++;
+                    rec_add(me->id, SIM_D_STALL, me->npts, stl->arg);
+                    hmix(0xF1000000ull | me->id);
+                }
                 rec_add(me->id, SIM_D_SWITCH, me->npts, next->id);
                 g_st.preemptions++;
                 handoff(me, next, kind);
+                return;
             }
-            return;
         }
         if (!(forced_spin || yieldish)) return;
         SimThread* dflt;
@@ -739,6 +802,7 @@ SIM_EXPORT void sim_get_stats(sim_stats* out)
     g_st.steps = g_step;
     g_st.vtime_ns = g_vtime;
     g_st.hash = g_hash;
+    g_st.auto_quiesced = (uint64_t) g_auto_quiesced;
     *out = g_st;
 }
 SIM_EXPORT void sim_hash_mix(uint64_t v) { hmix(v); }
@@ -778,6 +842,22 @@ SIM_EXPORT void sim_point_user(void)
     after_op(me, true);
 }
 SIM_EXPORT int sim_count_runnable(void) { return count_runnable(); }
+SIM_EXPORT void sim_dump_trace(int fd, int last_n)
+{
+    static const char* kn[] = {"load", "store", "rmw", "cas", "fence", "lock", "unlock", "trylock",
+        "cwait", "csignal", "yield", "sleep", "clock", "create", "exit", "join", "once", "user", "spin"};
+    if (last_n > TRACE_N) last_n = TRACE_N;
+    uint64_t from = g_step > (uint64_t) last_n ? g_step - (uint64_t) last_n + 1 : 1;
+    char buf[160];
+    for (uint64_t s = from; s <= g_step; s++)
+    {
+        TraceEnt& te = g_trace[s & (TRACE_N - 1)];
+        if (te.step != s) continue;
+        int n = snprintf(buf, sizeof(buf), "%llu T%u %s addr=%p pc=%p\n", (unsigned long long) te.step,
+            te.tid, te.kind < 19 ? kn[te.kind] : "?", (void*) te.addr, (void*) te.pc);
+        if (write(fd, buf, (size_t) n) < 0) break;
+    }
+}
 SIM_EXPORT size_t sim_describe(char* buf, size_t cap)
 {
     static const char* names[] = {
@@ -1749,10 +1829,15 @@ static void sim_sleep_until(SimThread* me, uint64_t abs_vns)
     if (abs_vns <= g_vtime)
     {
         point(me, K_YIELD, nullptr, 0);
+        after_op(me, true);
         return;
     }
-    point(me, K_SLEEP, nullptr, 0);
-    if (abs_vns <= g_vtime) return;
+    point(me, K_YIELD, nullptr, 0);
+    if (abs_vns <= g_vtime)
+    {
+        after_op(me, true);
+        return;
+    }
     me->st = T_SLEEP;
     set_deadline(me, abs_vns);
     block(me, K_SLEEP);
@@ -1875,6 +1960,35 @@ SIM_EXPORT time_t time(time_t* out)
     if (out) *out = t;
     return t;
 }
+
+SIM_EXPORT int sched_getcpu(void)
+{
+    if (g_on) return 0;
+    static int (*real)(void) = nullptr;
+    if (!real) real = (int (*)(void)) dlsym(RTLD_NEXT, "sched_getcpu");
+    return real ? real() : 0;
+}
+
+// pika's spin_k(k) is a pure delay loop of k PAUSE instructions with k growing without bound and no
+// schedule point inside; under the baton it only burns wall time. Replace the delay by one
+// (non-progress) schedule point. Semantically a no-op.
+namespace pika { namespace execution { namespace this_thread { namespace detail {
+    __attribute__((visibility("default"))) void spin_k(size_t k, char const* desc)
+    {
+        SimThread* me = SELF();
+        if (!me)
+        {
+            static void (*real)(size_t, char const*) = nullptr;
+            if (!real)
+                real = (void (*)(size_t, char const*)) dlsym(
+                    RTLD_NEXT, "_ZN4pika9execution11this_thread6detail6spin_kEmPKc");
+            if (real) real(k, desc);
+            return;
+        }
+        point(me, K_SPIN, nullptr, PC());
+        after_op(me, false);
+    }
+}}}}
 
 // thread binding is stubbed in simulation (the kernel scheduler is not part of the run)
 SIM_EXPORT int sched_setaffinity(pid_t pid, size_t sz, const cpu_set_t* set)
